@@ -130,7 +130,13 @@ def check_interp(case, stats):
 
 
 def templates_for(h):
-    return ["<" + h + ">", "x<" + h + ">y<" + h + ">", "<<" + h + ">>", "<other>", "plain " + h, h + "> <" + h, "<" + h.swapcase() + ">", "< " + h + " >"]
+    p = "<" + h + ">"
+    out = [p, "x" + p + "y" + p, "<" + p + ">", "<other>", "plain " + h, h + "> <" + h, "<" + h.swapcase() + ">", "< " + h + " >", p + p, p + p + p]
+    # a placeholder that overlaps itself (a proper suffix equal to a prefix, e.g. '<><>' or '<x><x>'): occurrences are taken left to right, never overlapping
+    for k in range(1, len(p)):
+        if p[k:] == p[:len(p) - k]:
+            out += [p + p[len(p) - k:], p + p[len(p) - k:] * 2, "z" + p + p[len(p) - k:] + "z" + p]
+    return out
 
 
 def unit_alpha(a):
@@ -155,7 +161,7 @@ def unit_two_columns(a):
     """exhaustive interplay of two columns over a tiny alphabet: values that contain the other column's placeholder,
     duplicate headers, headers made of angle brackets"""
     stats = Stats()
-    hs = ["a", "b", "", "<", ">", "<a>", "a>", "<b", "ab"]
+    hs = ["a", "b", "", "<", ">", "<a>", "a>", "<b", "ab", "a><a", "><"]
     vs = ["", "x", "<a>", "<b>", "<", ">", "a", "<<a>>", "\\", "$1"]
 
     def gen():
@@ -173,7 +179,7 @@ def unit_two_columns(a):
                         elif n % 4 == 1:
                             more = [[v1 + "|" + v2, "z"], [v1, v2 + "|z"]]             # rows that differ only in where a literal pipe falls
                         yield {"sub": "interp", "headers": [h1, h2], "values": [v1, v2], "more_rows": more, "second_block": [h2, h1] if n % 3 == 0 else ([h1 + "q", h2] if n % 3 == 1 else None),
-                               "templates": ["<%s>" % h1, "<%s> <%s>" % (h2, h1), "<<%s>>" % h2, "x", "<%s><%s" % (h1, h2)]}
+                               "templates": ["<%s>" % h1, "<%s> <%s>" % (h2, h1), "<<%s>>" % h2, "x", "<%s><%s" % (h1, h2), "<%s><%s><%s>" % (h1, h1, h1), "<%s><%s><%s><%s>" % (h1, h2, h1, h2)]}
     sweep(stats, gen(), check_interp)
     return stats
 
